@@ -125,6 +125,47 @@ def mixin_rules(repo, res):
         res.add(Finding('SPEC', g.fullname, 'model image shape', g.loc, 'the model image must be rendered at data.shape', {}))
 
 
+def overlap_wrapper_rules(repo, res):
+    """astropy's overlap_slices tests `small_array_shape` against a tuple; an ndarray shape (as_pair returns one) makes that test
+    ambiguous exactly when a window edge is 0.  WHO-MAY-CALL: only photutils.utils.cutouts._overlap_slices calls the astropy
+    function; MUST-PASS: the wrapper turns a non-scalar shape into a tuple before the call."""
+    n = 0
+    for m in repo.modules.values():
+        if '.tests' in m.name:
+            continue
+        for st in ast.walk(m.tree):
+            if isinstance(st, ast.ImportFrom) and st.module and st.module.startswith('astropy') \
+                    and any(a.name == 'overlap_slices' for a in st.names):
+                n += 1
+                ok = m.name == 'photutils.utils.cutouts'
+                res.oblige('WHO', f'{m.name} does not import astropy overlap_slices directly', ok, nontrivial=True)
+                if not ok:
+                    res.add(Finding('WHO', m.name, 'imports astropy overlap_slices', f'{m.relpath}:{st.lineno}',
+                                    f'{m.name} calls astropy.nddata.overlap_slices directly; shapes coming from as_pair are ndarrays and '
+                                    f'must go through photutils.utils.cutouts._overlap_slices (tuple conversion, NoOverlapError at the edge)', {}))
+    w = repo.get_function('photutils.utils.cutouts._overlap_slices')
+    calls = [c for c in ast.walk(w.node) if isinstance(c, ast.Call) and unparse(c.func, 0) == 'overlap_slices']
+    if len(calls) != 1 or len(calls[0].args) < 2:
+        raise AnalysisError('vanished anchor: overlap_slices call in photutils.utils.cutouts._overlap_slices')
+    arg = calls[0].args[1]
+    conv = [a_ for a_ in ast.walk(w.node) if isinstance(a_, ast.Assign) and len(a_.targets) == 1 and isinstance(arg, ast.Name)
+            and unparse(a_.targets[0], 0) == arg.id and isinstance(a_.value, ast.Call) and unparse(a_.value.func, 0) == 'tuple'
+            and a_.lineno < calls[0].lineno]
+    ok = (isinstance(arg, ast.Call) and unparse(arg.func, 0) == 'tuple')
+    if conv:
+        from .common import enclosing_if_atoms
+        atoms = enclosing_if_atoms(conv[0], w.node)
+        ok = all('isscalar' in a_ for a_ in atoms)
+    res.oblige('MUST-PASS', '_overlap_slices hands astropy a tuple shape (non-scalar shapes converted on every path)', ok, nontrivial=True)
+    if not ok:
+        res.add(Finding('MUST-PASS', w.fullname, 'tuple conversion of small_array_shape', f'{w.module.relpath}:{calls[0].lineno}',
+                        '_overlap_slices passes `small_array_shape` to astropy without converting it to a tuple: for an ndarray shape and a '
+                        'source whose window ends exactly at pixel 0, astropy raises ValueError (ambiguous truth value) instead of '
+                        'NoOverlapError, so make_model_image and the other callers fail instead of skipping the source', {}))
+    if n < 1:
+        raise AnalysisError('vanished anchor: import of astropy overlap_slices')
+
+
 def run(repo, tier):
     res = Result(PROP)
     res.explanation = (
@@ -137,6 +178,7 @@ def run(repo, tier):
     res.assumptions = ['astropy overlap_slices / discretize_model have their documented meaning']
     render_loop(repo, res)
     mixin_rules(repo, res)
+    overlap_wrapper_rules(repo, res)
     run_loops(repo, res, MODS | {'photutils.psf.photometry'}, rules=('LP1', 'LP1b', 'LP2'))
     run_axis(repo, res, MODS)
     run_forward(repo, res, MODS | {'photutils.psf.photometry'})
